@@ -248,6 +248,11 @@ func (w *webSocketClient) Subscribe(req *Request, interfaceChan interface{}, for
 }
 
 func (w *webSocketClient) Unsubscribe(subscriptionID string) error {
+	if sub, ok := w.subscriptions.Read(subscriptionID); ok && sub.hasBeenUnsubscribed {
+		// Already ended (by Close, an earlier Unsubscribe or the server):
+		// there is nothing left to tell the server.
+		return nil
+	}
 	completeMsg := webSocketSendMessage{
 		Type: webSocketTypeComplete,
 		ID:   subscriptionID,
